@@ -381,6 +381,17 @@ func (b byzcfg) scripted() []Event {
 			{Kind: 'B', From: S, To: B, Data: mpcPayload(X)},
 		}
 	}
+	if b.script == "round1-honest" {
+		// the deviator behaves in round 1 (the same payload to everybody); whatever that leaves
+		// behind at the honest parties must not count for round 2, where the remaining budget is spent
+		S := b.byz[0]
+		X := b.body(1, 'x')
+		var ev []Event
+		for _, h := range b.honest {
+			ev = append(ev, Event{Kind: 'B', From: S, To: h, Data: mpcPayload(X)})
+		}
+		return ev
+	}
 	if b.script != "alias" {
 		return nil
 	}
@@ -749,6 +760,7 @@ func gen(c *harness.C) []harness.Case {
 				{name: "N3-prefix-collision", honest: []uint16{1, 2}, byz: []uint16{3}, rounds: []uint8{1}, budget: 4, collide: "prefix8"},
 				{name: "N3-suffix-collision", honest: []uint16{1, 2}, byz: []uint16{3}, rounds: []uint8{1}, budget: 4, collide: "suffix8"},
 				{name: "N4b2-alias-scripted", honest: []uint16{2, 3}, byz: []uint16{1, 257}, rounds: []uint8{1}, budget: 1, script: "alias"},
+				{name: "N3-round1-honest-scripted", honest: []uint16{1, 2}, byz: []uint16{3}, rounds: []uint8{1, 2}, budget: 4, script: "round1-honest"},
 				{name: "N3-cross-round-scripted", honest: []uint16{1, 2}, byz: []uint16{3}, rounds: []uint8{1, 2}, budget: 1, script: "cross-round"},
 				{name: "N4-cross-round-scripted", honest: []uint16{1, 2, 3}, byz: []uint16{4}, rounds: []uint8{1, 2}, budget: 0, script: "cross-round"},
 				{name: "N3t2", honest: []uint16{1, 2}, byz: []uint16{3}, rounds: []uint8{1}, budget: 3, t: 2},
